@@ -38,7 +38,7 @@ PURE_METHODS = {
 
 
 class Eff:
-    __slots__ = ('kind', 'node', 'obj', 'name', 'value', 'call', 'sub', 'cond', 'lineno', 'depth')
+    __slots__ = ('kind', 'node', 'obj', 'name', 'value', 'call', 'sub', 'cond', 'lineno', 'depth', 'raw')
 
     def __init__(self, kind, node=None, obj=None, name=None, value=None, call=None, sub=None,
                  cond=False, depth=0):
@@ -52,6 +52,7 @@ class Eff:
         self.cond = cond          # evaluated only conditionally inside its expression
         self.lineno = getattr(node, 'lineno', 0)
         self.depth = depth        # inlining depth at which the effect happened
+        self.raw = None           # store_attr: the value with attribute reads left symbolic
 
     def text(self):
         if self.kind == 'call':
@@ -151,6 +152,8 @@ class Walker:
         self.calltab = {}               # symbol id -> tagged call expression
         self._tagn = itertools.count(1)
         self.keep = set(keep or ())     # callee names that stay calls (never inlined)
+        self.const_heap = {}            # canon('self.attr') -> defining expression (compile-time constants)
+        self.read_heap = True           # attribute reads are replaced by the value stored earlier on the path
 
     # ------------------------------------------------------------------ API
     def paths(self, func, bind=None, cls=None, depth=0):
@@ -331,7 +334,10 @@ class Walker:
                         self.assign(tt, ast.Subscript(value=v, slice=ast.Constant(value=i), ctx=ast.Load()), st, d, node)
         elif isinstance(t, ast.Attribute):
             obj = self.ev(t.value, st, d)
-            st.effects.append(Eff('store_attr', node, obj=obj, name=t.attr, value=v, depth=d))
+            eff = Eff('store_attr', node, obj=obj, name=t.attr, value=v, depth=d)
+            if isinstance(node, ast.Assign) and len(node.targets) == 1 and node.targets[0] is t:
+                eff.raw = self._ev_symbolic(node.value, st, d)
+            st.effects.append(eff)
             st.heap[canon(ast.Attribute(value=obj, attr=t.attr, ctx=ast.Load()))] = v
         elif isinstance(t, ast.Subscript):
             obj = self.ev(t.value, st, d)
@@ -478,6 +484,19 @@ class Walker:
         if e is None:
             return None
         return _Ev(self, st, d).run(e, cond)
+
+    def _ev_symbolic(self, e, st, d):
+        """the expression with locals substituted but attribute reads left as they are written
+        (no effects recorded)"""
+        tmp = st.clone()
+        saved = self.read_heap, self.const_heap, self.inline_depth
+        self.read_heap, self.const_heap, self.inline_depth = False, {}, 0
+        try:
+            return self.ev(e, tmp, d)
+        except Undecided:
+            return None
+        finally:
+            self.read_heap, self.const_heap, self.inline_depth = saved
 
     # --------------------------------------------------------------- inlining
     def try_inline_stmt(self, call, st, d):
@@ -693,8 +712,10 @@ class _Ev:
     def v_Attribute(self, e, cond):
         new = ast.Attribute(value=self.v(e.value, cond), attr=e.attr, ctx=ast.Load())
         k = canon(new)
-        if k in self.st.heap:
+        if k in self.st.heap and self.w.read_heap:
             return copy.deepcopy(self.st.heap[k])
+        if k in self.w.const_heap and isinstance(e.ctx, ast.Load):
+            return copy.deepcopy(self.w.const_heap[k])
         return new
 
     def v_Subscript(self, e, cond):
